@@ -105,7 +105,9 @@ Inductive rule : Type :=
 | R_FOREACH_SCOPE    (* foreachplug / foreachnode in a script kind that must not iterate over all plugs *)
 | R_IF_SCOPE         (* ifon / ifoff without a plug context *)
 | R_SETRESULT_SCOPE  (* setresult in login / logout / ping *)
-| R_LOOP.            (* internal: the loop invariant computed for a foreach body is not stable *)
+| R_LOOP             (* internal: the loop invariant computed for a foreach body is not stable *)
+| R_EMPTY.           (* a script or block without statements (the grammar excludes it; _process_stmt would
+                        dereference e->cur == NULL) *)
 
 Record failure : Type := mkFail { f_rule : rule; f_script : Z; f_path : list nat }.
 
@@ -121,6 +123,8 @@ Section Script.
     fail_if (forallb (fun p => pat_ok (snd p)) l) R_PATTERN path.
 
   Definition has_expect (x : xstate) : bool := match x with Some _ => true | None => false end.
+
+  Definition nonempty (l : list stmt) : bool := match l with [] => false | _ :: _ => true end.
 
   Fixpoint check_stmt (arg : bool) (x : xstate) (path : list nat) (s : stmt) {struct s} : list failure :=
     let blk := fix blk (arg : bool) (x : xstate) (path : list nat) (i : nat) (l : list stmt) {struct l}
@@ -146,10 +150,12 @@ Section Script.
     | Delay _ => []
     | ForeachPlug b | ForeachNode b =>
         let e := xjoin x (xout_block x b) in
+        fail_if (nonempty b) R_EMPTY path ++
         fail_if (foreach_allowed idx) R_FOREACH_SCOPE path ++
         fail_if (xle e (xout_block e b)) R_LOOP path ++
         blk true e path 0%nat b
     | IfOn b | IfOff b =>
+        fail_if (nonempty b) R_EMPTY path ++
         fail_if arg R_IF_SCOPE path ++
         blk arg x path 0%nat b
     end.
@@ -188,6 +194,7 @@ End Script.
 Definition check_script (sc : Z * list stmt) : list failure :=
   let '(idx, body) := sc in
   fail_if idx (Z.leb 0 idx && Z.ltb idx NUM_SCRIPTS) R_SCRIPT_INDEX [] ++
+  fail_if idx (nonempty body) R_EMPTY [] ++
   check_block idx (top_arg (kind_of idx)) None [] 0%nat body.
 
 Definition script_sends (sc : Z * list stmt) : list (list nat * text * bool) :=
